@@ -135,7 +135,10 @@ def run_long(item):
                 loadmod.Stream = Base
         if state['last'] and (not obs or obs[-1] != state['last']):
             obs.append(state['last'])
-        if item.get('head') and state['cnt'] >= item['head'] and obs[-1] != [state['last'][0], pulled[0]]:      # (only when the consumer itself stopped: a filter that finds no further row reads on)
+        # ... unless an observer sits in front of the consumer: a dumper / stream / checkpoint has to persist the COMPLETE stream (C05),
+        # so it reads the rest of the resource itself (and throws it away row by row: nothing is buffered)
+        has_observer = any(x.startswith(('dump_to_', 'stream', 'checkpoint')) for x in item['prog'])
+        if item.get('head') and not has_observer and state['cnt'] >= item['head'] and obs[-1] != [state['last'][0], pulled[0]]:      # (only when the consumer itself stopped: a filter that finds no further row reads on)
             obs.append([state['last'][0], pulled[0]])        # what had been pulled when the run was over, against the last row delivered
         return dict(id=item['id'], n=n, obs=obs)
     finally:
